@@ -88,57 +88,7 @@ class GuardHooks(L.LockHooks):
                 self.enter_section(eng, st, key, node)
 
 
-# ---- opaque mapping / iterable arguments (E, F, other) ----------------------------------------------------------------
-def ext_getattr(eng, args, kwargs, st, node):
-    obj, attr = args[0], args[1]
-    if isinstance(obj, SVal):
-        # the attribute may or may not exist on an arbitrary object
-        has = st.fresh.const('hasattr_' + attr, z3.BoolSort())
-        out = []
-        for side, s in eng.fork(st, has):
-            out.append((SFunc('opaque', st.fresh.const('attr_' + attr, Val)) if side else (args[2] if len(args) > 2 else SNone()), s))
-        return out
-    return None
-
-
-def ext_opaque_iter(eng, it, st):
-    if isinstance(it, SVal) or (isinstance(it, SFunc) and it.how == 'opaque_iter'):
-        arr = st.fresh.const('items', z3.ArraySort(z3.IntSort(), Val))
-        n = st.fresh.const('n_items', z3.IntSort())
-        pairs = isinstance(it, SFunc) and it.a and it.a[0] == 'pairs'
-        arr2 = st.fresh.const('items2', z3.ArraySort(z3.IntSort(), Val))
-
-        def get(j):
-            return SVal(z3.Select(arr, j))
-        return dict(n=n, get=get, facts=[n >= 0], unpack2=lambda j: STuple([SVal(z3.Select(arr, j)), SVal(z3.Select(arr2, j))]))
-    return None
-
-
-def ext_opaque_keys(eng, args, kwargs, st, node):
-    return [(SVal(st.fresh.const('keysview', Val)), st)]
-
-
-def ext_opaque_len(eng, args, kwargs, st, node):
-    n = st.fresh.const('olen', z3.IntSort())
-    return [(SInt(n), st.assume(n >= 0))]
-
-
-def ext_isinstance(eng, args, kwargs, st, node):
-    v, names = args
-    if isinstance(v, SVal):
-        b = st.fresh.const('isinst', z3.BoolSort())
-        return [(SBool(b), st)]
-    return None
-
-
-def ext_rlock(eng, args, kwargs, st, node):
-    s = st.copy()
-    r = eng.new_ref(s, L.Lock)
-    return [(r, s)]
-
-
-EXTERNALS = {'getattr': ext_getattr, 'iterate': ext_opaque_iter, 'opaque.keys': ext_opaque_keys,
-             'opaque.__len__': ext_opaque_len, 'isinstance': ext_isinstance}
+from .opaque_ext import EXTERNALS, ext_getattr, ext_opaque_iter, ext_opaque_keys, ext_opaque_len, ext_isinstance, ext_rlock  # noqa: E402,F401
 
 TRIV = Loop(lambda c: [])
 
